@@ -241,10 +241,15 @@ class Scanner(Contract):
     """lists a node id once, in order of first appearance, only for ids of the predefined-connection-set services"""
     target = "canopen.network:NodeScanner.on_message_received"
     props = ("C10",)
+    cases = {"any-history": None, "two-listed": 2, "three-listed": 3}
 
     def setup(self, w, case):
         can_id = w.int("can_id", 0, 0x1FFFFFFF)
-        nodes = w.plist("nodes", elem=lambda i: 5 + i)
+        if case is None:
+            nodes = w.plist("nodes", elem=lambda i: 5 + i)
+        else:
+            # a known history: these ids were seen in this order (any order of their values)
+            nodes = w.list([w.int("seen%d" % i, 1, 127) for i in range(case)])
         sc = w.obj("canopen.network:NodeScanner", network=None, nodes=nodes)
         w.pre.update(sc=sc, can_id=can_id, nodes0=w.snap(nodes))
         return Call(("method", sc, "on_message_received"), [can_id])
